@@ -37,7 +37,7 @@ func checkC03(c *Check) {
 					if typeIs(f.Type(), modulePkg, "Delivery") {
 						delivField = f
 					}
-					if f.Name() == "mailFrom" {
+					if objName(f) == "mailFrom" {
 						mailFromField = f
 					}
 				}
@@ -608,7 +608,7 @@ func c03LMTPCommit(c *Check) {
 				if fv := fieldOf(inf, as.Lhs[0]); fv != nil {
 					if tv, ok := inf.Types[as.Rhs[0]]; ok && tv.Value != nil && tv.Value.String() == "true" {
 						if b, ok := fv.Type().Underlying().(*types.Basic); ok && b.Kind() == types.Bool {
-							if nt := fieldOwner(p, fv); nt != nil && nt.Obj().Name() == "delivery" {
+							if nt := fieldOwner(p, fv); nt != nil && objName(nt.Obj()) == "delivery" {
 								flag = fv
 							}
 						}
